@@ -8,6 +8,8 @@ Clauses
               Gradient: (n,), 0-d for n = 1
   finite      no NaN/inf
   forwarded   every call of f received exactly the extra args / kwds of the outer call
+  reuse       a second call of one object at the same x with other extra arguments equals, bit for bit,
+              that call on a fresh object (f's value depends on the arguments)
   bounds      every evaluation point p satisfies lo <= Re p <= hi componentwise
   affine-cs   complex method on an affine map: |J - A|_ej <= 16 eps |A_ej|  (measured <= 0.93 eps |A|)
   accuracy    |J - exact|_ej <= T + C_R * R + 64 eps |exact|  with, from the recorded offsets of coordinate j
@@ -192,6 +194,29 @@ class C19(Prop):
                     lib = cls(f, step=step, method=method, **kw)(x_in, *args, **kwds)
         lib = np.asarray(lib)
         m = len(prog['comps'])
+        # ---- reuse: a second call of the same object at the same x with other extra arguments ------
+        # F(x, *a, **k) = f(x) * (1 + tanh(s)/4) + s with s = sum of the extra arguments, so anything
+        # remembered from the first call (f(x), differences) shows in the second result; the reference
+        # is the same call on a fresh object, compared bit for bit (both are deterministic).
+        f_plain = mv.MVFunction(prog)
+
+        def f_args(xx, *a, **k):
+            s_ = float(sum(a)) + float(sum(k.values()))
+            return f_plain(xx) * (1.0 + 0.25 * math.tanh(s_)) + s_
+        args2 = args + (0.75,)
+        with warnings.catch_warnings():
+            warnings.simplefilter('ignore')
+            with np.errstate(all='ignore'):
+                with ctx.lib('no-exception', what + ' called twice'):
+                    obj = cls(f_args, step=step, method=method, **kw)
+                    first = np.asarray(obj(x_in, *args, **kwds))
+                    again = np.asarray(obj(x_in, *args2, **kwds))
+                    fresh = np.asarray(cls(f_args, step=step, method=method, **kw)(x_in, *args2, **kwds))
+        if again.shape != fresh.shape or not np.array_equal(again, fresh, equal_nan=True):
+            raise Violation('reuse', '%s: the second call of one object at the same x with extra arguments %r '
+                            '(after %r) returns %r, a fresh object returns %r'
+                            % (what, args2, args, again, fresh), method=method)
+        ctx.count('reuse clause evaluated')
         # ---- shape ------------------------------------------------------------------------
         if api == 'gradient':
             want = () if n == 1 else (n,)
